@@ -154,6 +154,8 @@ func (q *Queue[T]) BlockingAdd(ctx context.Context, item T) error {
 	go func() {
 		<-ctx.Done()
 		verifAt(ctx, "helper.gate", cond)
+		q.mu.Lock()
+		defer q.mu.Unlock()
 		cond.Broadcast()
 		verifAt(ctx, "helper.done", cond)
 	}()
@@ -211,6 +213,8 @@ func (q *Queue[T]) unsafeWaitWhileEmpty(ctx context.Context) error {
 	go func() {
 		<-ctx.Done()
 		verifAt(ctx, "helper.gate", q.nempty)
+		q.mu.Lock()
+		defer q.mu.Unlock()
 		q.nempty.Broadcast()
 		verifAt(ctx, "helper.done", q.nempty)
 	}()
@@ -242,6 +246,8 @@ func (q *Queue[T]) waitForNew(ctx context.Context) error {
 	go func() {
 		<-ctx.Done()
 		verifAt(ctx, "helper.gate", q.nupdates)
+		q.mu.Lock()
+		defer q.mu.Unlock()
 		q.nupdates.Broadcast()
 		verifAt(ctx, "helper.done", q.nupdates)
 	}()
